@@ -101,6 +101,10 @@ impl Ctx {
 				other => machinery_fail(&format!("unknown argument {other:?}")),
 			}
 		}
+		// anyhow captures a backtrace per error when these are on; error paths are explored millions of
+		// times and std serialises captures behind a global lock (still single-threaded here)
+		std::env::set_var("RUST_BACKTRACE", "0");
+		std::env::set_var("RUST_LIB_BACKTRACE", "0");
 		let seed = std::env::var("VERIF_SEED").ok().and_then(|s| s.parse::<i64>().ok()).unwrap_or(0) as u64;
 		let root = verif_root();
 		let open_findings = load_findings(&root, prop);
